@@ -81,8 +81,16 @@ class Project:
     """locales[0] is the default; units: {ns or None: {locale: tree}}; tree: list of (key, node);
     node: {"kind": plain|other|sub|absent|null, "json": value, "text": str, "sub": tree}"""
 
-    def __init__(self, locales, namespaces, inherits, units):
+    def __init__(self, locales, namespaces, inherits, units, config_pos=0):
         self.locales, self.namespaces, self.inherits, self.units = locales, namespaces, inherits, units
+        # position of the default locale in the `locales = [..]` list of the configuration: the parser swaps it with
+        # the first entry, `self.locales` is the order AFTER that swap (the order in which the locales are merged)
+        self.config_pos = config_pos if 0 <= config_pos < len(locales) else 0
+
+    def config_locales(self):
+        c = list(self.locales)
+        c[0], c[self.config_pos] = c[self.config_pos], c[0]
+        return c
 
     def write(self, d, clean=True):
         """clean=False (probe crates): files are only rewritten when their content changes and nothing is removed
@@ -92,7 +100,7 @@ class Project:
         os.makedirs(os.path.join(d, "locales"), exist_ok=True)
         toml = ['[package]', 'name = "probe"', 'version = "0.1.0"', 'edition = "2021"', '',
                 '[package.metadata.leptos-i18n]', 'default = %s' % json.dumps(self.locales[0]),
-                'locales = %s' % json.dumps(self.locales)]
+                'locales = %s' % json.dumps(self.config_locales())]
         if self.namespaces:
             toml.append('namespaces = %s' % json.dumps(self.namespaces))
         if self.inherits:
@@ -189,8 +197,8 @@ def gen_default_tree(rng, depth, pool, prefix, plain_keys, ns=None):
             target = (ns + ":" if ns else "") + ".".join(tpath)
             v = "$t(%s)" % target if rng.random() < 0.5 else "%s$t(%s)%s" % (gen_text(rng), target, gen_text(rng))
             tree.append(("f%d" % i, {"kind": "other", "json": v, "target": tpath}))
-        elif r < 0.89:
-            tree.append(("n%d" % i, {"kind": "other", "json": rng.choice([3, -4, 2.5, True, False])}))
+        elif r < 0.91:
+            tree.append(("n%d" % i, {"kind": "other", "json": gen_nonstring(rng)}))
         elif depth < 3:
             sub = gen_default_tree(rng, depth + 1, pool, prefix + ["s%d" % i], plain_keys, ns)
             tree.append(("s%d" % i, {"kind": "sub", "sub": sub}))
@@ -199,6 +207,21 @@ def gen_default_tree(rng, depth, pool, prefix, plain_keys, ns=None):
             tree.append(("k%d" % i, {"kind": "plain", "json": t, "text": t}))
             plain_keys.append(prefix + ["k%d" % i])
     return tree
+
+
+def gen_nonstring(rng):
+    return rng.choice([True, False, 0, 3, 17, -4, -1, 2.5, -0.25, 1e3])
+
+
+def lit_type(j):
+    """LiteralType of a JSON value as the parser reads it (None: not a literal)"""
+    if isinstance(j, bool):
+        return "b"
+    if isinstance(j, int):
+        return "i" if j < 0 else "u"
+    if isinstance(j, float):
+        return "f"
+    return None
 
 
 def derive_tree(rng, dtree, pool, default_texts):
@@ -210,6 +233,8 @@ def derive_tree(rng, dtree, pool, default_texts):
             tree.append((k, {"kind": "absent"}))
         elif r < 0.2 and node["kind"] != "plural":
             tree.append((k, {"kind": "null", "json": None}))
+        elif node["kind"] == "plain" and rng.random() < 0.1:
+            tree.append((k, {"kind": "other", "json": gen_nonstring(rng)}))    # a number / boolean where the default locale has a text
         elif node["kind"] == "plain":
             rr = rng.random()
             if rr < 0.15 and pool:
@@ -237,6 +262,12 @@ def derive_tree(rng, dtree, pool, default_texts):
                 tree.append((k, {"kind": "other", "json": "<b>%s</b>%s" % (gen_text(rng), gen_text(rng))}))
             elif isinstance(j, list):
                 tree.append((k, {"kind": "other", "json": [[gen_text(rng), 0], [gen_text(rng)]]}))
+            elif rng.random() < 0.45:
+                t = gen_text(rng)                                              # a plain text where the default locale has a number / boolean
+                pool.append(t)
+                tree.append((k, {"kind": "plain", "json": t, "text": t}))
+            elif rng.random() < 0.4:
+                tree.append((k, {"kind": "other", "json": gen_nonstring(rng)}))    # possibly another literal type
             else:
                 tree.append((k, dict(node)))
     return tree
@@ -293,7 +324,7 @@ def gen_project(rng, max_locales=4, force_ns=None):
             if rng.random() < 0.1:
                 add_surplus(rng, per[loc])
         units[ns] = per
-    return Project(locales, namespaces, inherits, units)
+    return Project(locales, namespaces, inherits, units, config_pos=rng.choice([0, 0, 1, 2, 3]))
 
 
 def single_string_project(text):
@@ -685,7 +716,7 @@ def effective_locale(proj, ns, loc, path):
 
 def write_probe(proj, d, touch_list, name):
     proj.write(d, clean=False)   # locales/
-    i18n = ['default = %s' % json.dumps(proj.locales[0]), 'locales = %s' % json.dumps(proj.locales)]
+    i18n = ['default = %s' % json.dumps(proj.locales[0]), 'locales = %s' % json.dumps(proj.config_locales())]
     if proj.namespaces:
         i18n.append('namespaces = %s' % json.dumps(proj.namespaces))
     if proj.inherits:
@@ -960,8 +991,28 @@ def structured_project(rng, nloc=3, nns=0, depth=1, mode="rich", inherit=True, a
 
     def group(li, d, prefix, ns, shared):
         tree = []
-        if mode in ("zero", "one", "small"):
-            if mode != "zero" and d == depth:            # the single text sits in the deepest group
+        if mode in ("zero", "one", "small", "mixone"):
+            # literal kinds that differ between the locales (no text involved): boolean in some, number in others
+            tree.append(("x_bi", {"kind": "other", "json": True if (li == 0 or li % 2 == 0) else 3}))
+            if mode == "mixone" and d == depth:
+                # a boolean in the default locale / a text in others, and the reverse; tables of 0 or 1 string
+                single = shared["single"][0] or "one"
+                if li == 0 or li == 2:
+                    tree.append(("x_bs", {"kind": "other", "json": True}))
+                else:
+                    t = single if li >= 3 else (shared["single"][li] or "uno")
+                    tree.append(("x_bs", {"kind": "plain", "json": t, "text": t}))
+                if li == 0 or li >= 3:
+                    tree.append(("x_sb", {"kind": "plain", "json": single, "text": single}))
+                else:
+                    tree.append(("x_sb", {"kind": "other", "json": 5 if li == 1 else False}))
+            if mode == "small":
+                if li == 0:
+                    tree.append(("x_bs", {"kind": "other", "json": False}))
+                else:
+                    t = text(li, rng.choice(CLASSES))
+                    tree.append(("x_bs", {"kind": "plain", "json": t, "text": t}))
+            if mode in ("one", "small") and d == depth:  # the single text sits in the deepest group
                 t = shared["single"][li]
                 tree.append(("k0", {"kind": "plain", "json": t, "text": t}))
                 tree.append(("k0d", {"kind": "plain", "json": t, "text": t}))
@@ -990,6 +1041,22 @@ def structured_project(rng, nloc=3, nns=0, depth=1, mode="rich", inherit=True, a
                 tree.append(("sh2", {"kind": "plain", "json": shared["others"], "text": shared["others"]}))
             else:
                 tree.append(("sh2", {"kind": "plain", "json": shared["all"] + "!", "text": shared["all"] + "!"}))
+            # literal kinds across locales: key j differs from the default locale's type first in locale 1, 2 or 3
+            for j, (name, dflt) in enumerate([("x_bs", True), ("x_us", 7), ("x_is", -2), ("x_fs", 1.5), ("x_sb", None)]):
+                choice = 0 if li == 0 else (li + j) % 3
+                if dflt is None:                                   # the default locale has a text
+                    if choice == 0:
+                        t = text(li)
+                        tree.append((name, {"kind": "plain", "json": t, "text": t}))
+                    else:
+                        tree.append((name, {"kind": "other", "json": [None, 4, False][choice]}))
+                elif choice == 0:
+                    tree.append((name, {"kind": "other", "json": dflt}))
+                elif choice == 1:                                  # a text where the default locale has a number / boolean
+                    t = text(li, rng.choice(CLASSES)) or "t"
+                    tree.append((name, {"kind": "plain", "json": t, "text": t}))
+                else:                                              # another non-string type
+                    tree.append((name, {"kind": "other", "json": (2.5 if not isinstance(dflt, float) else False)}))
             a, b = text(li), text(li)
             tree += [
                 ("n1", {"kind": "other", "json": rng.choice([3, -4, 2.5, True])}),
@@ -1011,7 +1078,7 @@ def structured_project(rng, nloc=3, nns=0, depth=1, mode="rich", inherit=True, a
                     out.append((k, {"kind": "absent"}))
                 else:
                     out.append((k, {"kind": "sub", "sub": thin(node["sub"], li, False)}))
-            elif k in ("k0", "k0d", "f0", "sh", "sh2", "k0n"):
+            elif k in ("k0", "k0d", "f0", "sh", "sh2", "k0n") or k.startswith("x_"):
                 out.append((k, node))
             elif k == "n1":
                 out.append((k, {"kind": "absent"}))
@@ -1040,4 +1107,4 @@ def structured_project(rng, nloc=3, nns=0, depth=1, mode="rich", inherit=True, a
             if li:
                 fix_foreign(per[loc])
         units[ns] = per
-    return Project(locales, namespaces, inherits, units)
+    return Project(locales, namespaces, inherits, units, config_pos=rng.choice([0, 1, 2, 3]))
